@@ -1098,11 +1098,21 @@ def count_binders(x):
     return n
 
 
-def long_sequence(rng, n_ops, flush_every, depth=3, epr_hw=None):
+def long_sequence(rng, n_ops, flush_every, depth=3, epr_hw=None, reg_meas_p=0.15):
+    """completed operations of every kind, a flush after every `flush_every`-th; interleaved with
+    register-outcome measurements (`measure(store_array=False)`, at most 15 between two flushes: their
+    M registers are held until the flush)"""
     p = [{"k": "arr", "len": 2, "init": [0, 1]}, {"k": "arr", "len": 2, "init": [1, 1]},
          {"k": "arr", "len": 2, "init": [2, 0]}, {"k": "flush"}]
     h = 0
+    in_seg = 0
     for i in range(n_ops):
+        if rng.random() < reg_meas_p and in_seg < 15:
+            p.append({"k": "qop", "g": [rng.randrange(7)] if rng.random() < 0.5 else [], "t": {"k": "reg"}})
+            h += 1
+            in_seg += 1
+        if (i + 1) % flush_every == 0:
+            in_seg = 0
         p.append(completed_op(rng, depth, h0=h, epr_hw=epr_hw))
         h += count_binders(p[-1])
         if (i + 1) % flush_every == 0:
